@@ -70,7 +70,7 @@ IntT g_a0, g_b0;    /* ghost: entry values of a and b (the loop overwrites the p
 #define GCD_POST_DIV(d, r) \
   (((DIVS(d, a) && DIVS(d, b)) ==> DIVS(d, r)) && \
    (DIVS(d, r) ==> (DIVS(d, a) && DIVS(d, b))) && \
-   (((r) != 0 && (d) == (UIntT)(r)) ==> (U64(a) % U64(r) == 0 && U64(b) % U64(r) == 0)))
+   (((r) != 0 && (d) == (UIntT)(r)) ==> (DIVS(d, a) && DIVS(d, b))))
 
 IntT GCD_NAME(IntT a, IntT b)
 __CPROVER_requires(NONNEG(a) && NONNEG(b) && g_d >= 1 && g_d2 >= 1)
